@@ -64,6 +64,7 @@ type ddfs struct {
 	onEnd   func(w *World) []*Violation
 	maxLen  int
 	digest  uint64
+	validateEvery int64
 }
 
 func replayChoices(sc *Scenario, mf MonitorFactory, path []Event) (*World, *StepRec) {
@@ -74,6 +75,23 @@ func replayChoices(sc *Scenario, mf MonitorFactory, path []Event) (*World, *Step
 		rec = w.applyChoice(ev)
 	}
 	return w, rec
+}
+
+// replayChoicesCheck is replayChoices that also returns the first violation met on
+// the way together with the length of the prefix that produced it. A re-execution
+// from scratch keeps real memory aliasing between the node and slices it handed
+// out earlier (copy-on-write clones do not), so it can expose violations the
+// incremental exploration cannot.
+func replayChoicesCheck(sc *Scenario, mf MonitorFactory, path []Event) (*World, []*Violation, int) {
+	w := NewWorld(sc, mf())
+	w.runPrefix()
+	for i, ev := range path {
+		rec := w.applyChoice(ev)
+		if len(rec.Violations) > 0 {
+			return w, rec.Violations, i + 1
+		}
+	}
+	return w, nil, len(path)
 }
 
 // DescribeChoices renders a D-DFS execution (explicit choice list) in readable form.
@@ -220,12 +238,15 @@ func (d *ddfs) run(w *World, path []Event, devs int) {
 				d.found(v, path)
 			}
 		}
-		if d.res.Terminal%25 == 1 || d.lim.Determinism {
+		if d.res.Terminal%d.validateEvery == 1 || d.validateEvery == 1 || d.lim.Determinism {
 			// validate this execution against the implementation: re-run the whole
 			// choice list on fresh objects and compare the final state key
-			w2, _ := replayChoices(d.sc, d.mf, path)
+			w2, vs, at := replayChoicesCheck(d.sc, d.mf, path)
 			d.res.Replays++
-			if w2.Key(true) != w.Key(true) || (d.lim.Determinism && w2.Out != w.Out) {
+			if len(vs) > 0 {
+				// only the from-scratch execution shows it (e.g. aliasing with slices handed out earlier)
+				d.found(vs, path[:at])
+			} else if w2.Key(true) != w.Key(true) || (d.lim.Determinism && w2.Out != w.Out) {
 				if d.lim.Determinism {
 					d.found([]*Violation{{"C19", "same-inputs-same-outputs", fmt.Sprintf("re-executing the execution on fresh objects gave a different state or different outputs (outputs equal: %v)", w2.Out == w.Out)}}, path)
 				} else {
@@ -253,7 +274,7 @@ func DevDFS(sc *Scenario, mf MonitorFactory, lim Limits, onEnd func(w *World) []
 	}
 	completed := -1
 	for b := 0; b <= sc.DevBound; b++ {
-		d := &ddfs{sc: sc, mf: mf, lim: lim, res: res, visited: map[[16]byte]int8{}, bound: b, onEnd: onEnd, maxLen: 1500}
+		d := &ddfs{sc: sc, mf: mf, lim: lim, res: res, visited: map[[16]byte]int8{}, bound: b, onEnd: onEnd, maxLen: 1500, validateEvery: lim.validateEvery()}
 		w0, _ := replayChoices(sc, mf, nil)
 		d.run(w0, nil, 0)
 		if d.stop {
